@@ -1,12 +1,13 @@
-// Stress reproducer for the C40 finding "indexed log search misses canonical logs after fast
-// branch switching". go-ethereum public API only, plus filtermaps.VerifParams (build tag verif)
-// to get the small Params the package's own tests use.
+// Stress reproducer for the C40 finding "log index holds another branch at rest". go-ethereum
+// public API only, plus filtermaps.VerifParams (build tag verif) for test-sized Params.
 //
-// Per iteration: chain of 12 common blocks, branch A (24 blocks) and branch B (26 blocks), every
-// block carries 6 one-log transactions. Import common+A, wait for the indexer; then import B
-// (reorg), SetCanonical(A tip), SetCanonical(B tip), each followed by FilterMaps.SetTarget like
-// eth/backend.go does on a chain head event, without waiting. Finally WaitIdle and compare
-// Filter.Logs(address = emitter, [0, latest]) with a direct scan of the canonical receipts.
+// Per iteration: 12 common blocks, branch A (24 blocks, head #36) and branch B (26 blocks, head
+// #38), every block carries 0..12 logs with 0..4 topics. Import common+A and wait for the indexer.
+// Then, back to back and each followed by FilterMaps.SetTarget(current view) exactly like
+// eth/backend.go does on a chain head event: InsertChain(B) (reorg), SetCanonical(A tip),
+// SetCanonical(B tip), while three goroutines issue range queries. Finally WaitIdle and compare
+// Filter.Logs(one emitter, [0, latest]) with a direct scan of the canonical receipts; on a
+// difference the stored log value pointers are compared with the canonical blocks.
 package main
 
 import (
@@ -15,10 +16,8 @@ import (
 	"math/big"
 	"math/rand"
 	"os"
-	"runtime"
 	"strconv"
 	"sync"
-	"time"
 
 	"github.com/ethereum/go-ethereum/common"
 	"github.com/ethereum/go-ethereum/consensus/ethash"
@@ -91,29 +90,37 @@ func main() {
 	}
 	key, _ := crypto.HexToECDSA("b71c71a67e1177ad4e901695e1b4b9ee17ae16c6668d313eac2f96dbcda3f291")
 	addr := crypto.PubkeyToAddress(key.PublicKey)
-	emitter := common.HexToAddress("0xee01")
 	config := *params.TestChainConfig
 	signer := types.LatestSigner(&config)
 	engine := ethash.NewFaker()
-	gspec := &core.Genesis{Config: &config, GasLimit: 30_000_000, BaseFee: big.NewInt(params.InitialBaseFee), Alloc: types.GenesisAlloc{
-		addr:    {Balance: new(big.Int).Lsh(big.NewInt(1), 90)},
-		emitter: {Code: common.FromHex("60003560006000a100"), Balance: big.NewInt(1)}, // LOG1(topic = calldata[0:32]); STOP
-	}}
-	gen := func(tag byte) func(int, *core.BlockGen) {
-		return func(i int, b *core.BlockGen) {
-			b.SetExtra([]byte{tag})
-			for j := 0; j < 6; j++ {
-				data := common.BytesToHash([]byte{tag, byte(i), byte(j)})
-				b.AddTx(types.MustSignNewTx(key, signer, &types.LegacyTx{Nonce: b.TxNonce(addr), To: &emitter, Gas: 60000, GasPrice: big.NewInt(100 * params.GWei), Data: data[:]}))
+	// LOGn emitters: code i emits LOGi with topics calldata[0:32], calldata[32:64], ...
+	codes := []string{"60006000a000", "60003560006000a100", "60203560003560006000a200", "604035602035600035" + "60006000a300", "6060356040356020356000356000" + "6000a400"}
+	var emitters []common.Address
+	alloc := types.GenesisAlloc{addr: {Balance: new(big.Int).Lsh(big.NewInt(1), 90)}}
+	for i, c := range codes {
+		a := common.BytesToAddress([]byte{0xee, byte(i)})
+		emitters = append(emitters, a)
+		alloc[a] = types.Account{Code: common.FromHex(c), Balance: big.NewInt(1)}
+	}
+	gspec := &core.Genesis{Config: &config, GasLimit: 30_000_000, BaseFee: big.NewInt(params.InitialBaseFee), Alloc: alloc}
+	rng := rand.New(rand.NewSource(7))
+	gen := func(i int, b *core.BlockGen) {
+		var extra [4]byte
+		rng.Read(extra[:])
+		b.SetExtra(extra[:])
+		for j := rng.Intn(13); j > 0; j-- {
+			data := make([]byte, 128)
+			for k := 0; k < 4; k++ {
+				data[k*32+31] = byte(1 + rng.Intn(5))
 			}
+			b.AddTx(types.MustSignNewTx(key, signer, &types.LegacyTx{Nonce: b.TxNonce(addr), To: &emitters[rng.Intn(5)], Gas: 80000, GasPrice: big.NewInt(100 * params.GWei), Data: data}))
 		}
 	}
-	gendb, common12, _ := core.GenerateChainWithGenesis(gspec, engine, 12, gen('C'))
-	chainA, _ := core.GenerateChain(&config, common12[11], engine, gendb, 24, gen('A'))
-	chainB, _ := core.GenerateChain(&config, common12[11], engine, gendb, 26, gen('B'))
+	gendb, common12, _ := core.GenerateChainWithGenesis(gspec, engine, 12, gen)
+	chainA, _ := core.GenerateChain(&config, common12[11], engine, gendb, 24, gen)
+	chainB, _ := core.GenerateChain(&config, common12[11], engine, gendb, 26, gen)
 	fparams := filtermaps.VerifParams(3, 24, 2, 6, 4, 2, 2) // 64 log values per map, 8 rows, 4 maps per epoch
 
-	rng := rand.New(rand.NewSource(1))
 	failures := 0
 	for it := 0; it < iters; it++ {
 		db := rawdb.NewMemoryDatabase()
@@ -131,17 +138,6 @@ func main() {
 		be.fm.Start()
 		sys := filters.NewFilterSystem(be, filters.Config{})
 		setTarget := func() { be.fm.SetTarget(be.CurrentView(), 0, 0) }
-		pause := func() {
-			switch rng.Intn(4) {
-			case 0:
-			case 1:
-				runtime.Gosched()
-			case 2:
-				time.Sleep(time.Duration(rng.Intn(300)) * time.Microsecond)
-			case 3:
-				time.Sleep(time.Duration(rng.Intn(3000)) * time.Microsecond)
-			}
-		}
 		must := func(_ any, err error) {
 			if err != nil {
 				panic(err)
@@ -151,12 +147,11 @@ func main() {
 		must(bc.InsertChain(chainA))
 		setTarget()
 		be.fm.WaitIdle()
-		// queries racing with the branch switches (like RPC clients)
 		stop := make(chan struct{})
 		var wg sync.WaitGroup
 		for g := 0; g < 3; g++ {
 			wg.Add(1)
-			qr := rand.New(rand.NewSource(rng.Int63()))
+			qr := rand.New(rand.NewSource(int64(it*3 + g)))
 			go func() {
 				defer wg.Done()
 				for {
@@ -165,55 +160,62 @@ func main() {
 						return
 					default:
 					}
-					a := int64(qr.Intn(30))
-					sys.NewRangeFilter(a, a+int64(qr.Intn(8)), []common.Address{emitter}, nil, 0).Logs(context.Background())
+					a := int64(qr.Intn(36))
+					sys.NewRangeFilter(a, a+int64(qr.Intn(10)), []common.Address{emitters[qr.Intn(5)]}, nil, 0).Logs(context.Background())
 				}
 			}()
 		}
 		must(bc.InsertChain(chainB)) // reorg depth 24
 		setTarget()
-		pause()
 		must(bc.SetCanonical(bc.GetBlockByHash(chainA[23].Hash())))
 		setTarget()
-		pause()
 		must(bc.SetCanonical(bc.GetBlockByHash(chainB[25].Hash())))
 		setTarget()
 		close(stop)
 		wg.Wait()
 		be.fm.WaitIdle()
 
-		got, err := sys.NewRangeFilter(0, rpc.LatestBlockNumber.Int64(), []common.Address{emitter}, nil, 0).Logs(context.Background())
-		var want []*types.Log
 		head := bc.CurrentBlock().Number.Uint64()
-		for n := uint64(0); n <= head; n++ {
-			for _, r := range bc.GetReceiptsByHash(bc.GetCanonicalHash(n)) {
-				want = append(want, r.Logs...)
+		bad := false
+		for _, em := range emitters[1:] {
+			got, err := sys.NewRangeFilter(0, rpc.LatestBlockNumber.Int64(), []common.Address{em}, nil, 0).Logs(context.Background())
+			want := 0
+			for n := uint64(0); n <= head; n++ {
+				for _, r := range bc.GetReceiptsByHash(bc.GetCanonicalHash(n)) {
+					for _, l := range r.Logs {
+						if l.Address == em {
+							want++
+						}
+					}
+				}
 			}
-		}
-		bad := err != nil || len(got) != len(want)
-		first := -1
-		for i := 0; !bad && i < len(got); i++ {
-			if got[i].BlockHash != want[i].BlockHash || got[i].Index != want[i].Index {
-				bad, first = true, i
+			if err != nil || len(got) != want {
+				bad = true
+				if failures < 3 {
+					fmt.Printf("iteration %d: chain at rest on branch B (head #%d), indexer idle: Filter.Logs(address %x) err=%v returned %d logs, canonical receipts hold %d\n", it, head, em.Bytes()[18:], err, len(got), want)
+				}
 			}
 		}
 		if bad {
-			failures++
-			missing := map[uint64]int{}
-			have := map[common.Hash]int{}
-			for _, l := range got {
-				have[l.BlockHash]++
-			}
-			for n := uint64(0); n <= head; n++ {
-				if d := 6 - have[bc.GetCanonicalHash(n)]; d != 0 && n > 0 {
-					missing[n] = d
+			if failures < 3 {
+				for n := uint64(12); n < head; n++ {
+					p, _ := rawdb.ReadBlockLvPointer(db, n)
+					p2, _ := rawdb.ReadBlockLvPointer(db, n+1)
+					vals := 1
+					for _, r := range bc.GetReceiptsByHash(bc.GetCanonicalHash(n)) {
+						for _, l := range r.Logs {
+							vals += 1 + len(l.Topics)
+						}
+					}
+					if int(p2-p) < vals {
+						fmt.Printf("   block %d: canonical block has %d log values, the index allots %d\n", n, vals, p2-p)
+					}
 				}
 			}
-			fmt.Printf("iteration %d: head #%d (branch B tip: %v) Filter.Logs err=%v returned %d logs, canonical receipts hold %d (first differing position %d); canonical blocks with missing logs: %v\n",
-				it, head, bc.CurrentBlock().Hash() == chainB[25].Hash(), err, len(got), len(want), first, missing)
+			failures++
 		}
 		be.fm.Stop()
 		bc.Stop()
 	}
-	fmt.Printf("%d of %d iterations returned a result different from the canonical receipts (indexer idle, chain at rest)\n", failures, iters)
+	fmt.Printf("%d of %d iterations: results at rest differ from the canonical receipts\n", failures, iters)
 }
